@@ -4,10 +4,15 @@ func init() {
 	register(&propDef{ID: "C07",
 		Jobs: func(tier string) []Job {
 			jobs := seqJobs("C07", tier, seqCfgs(tier, []bool{true}, []string{"default", "kv"}, []string{"drain", "starve"}, 5, 6))
+			// instances populated by LoadFromDisk (with and without delta interleaving)
+			for _, delta := range []bool{false, true} {
+				jobs = append(jobs, seqJobs("C07", tier, []seqCfg{{nCfg: nCfg{cmp: "default", writers: 2, mm: true, delta: delta}, policy: "drain", depth: 2, maxSnaps: 3, init: "abc", keys: []string{"a", "b", "c"},
+					check: c05Check("C07", []int{1, 2}, []int{1}, []int{1, 2})}})...)
+			}
 			return append(jobs, c07ConcJobs(tier)...)
 		},
 		Rule:  "user-managed memory on the guard allocator (one page-aligned slot per block, never reused, freed pages inaccessible): every operation sequence up to the depth (alphabet of C02: rejected Puts, same-epoch and cross-epoch deletes, losing DeleteNode, snapshots closed in every order), workers drained or starved, ended by a final snapshot, closing every snapshot and Close(); the allocator live set must be empty, no block freed twice, no block freed that was never allocated; conc jobs: the C04 concurrent drivers run to Close(); non-trivial = distinct states / deviating schedules",
-		Notes: []string{"successful LoadFromDisk only (error-path leaks are fault-sequence behaviour outside C07's quantifier); restored instances are covered by the C05 jobs with user-managed memory"}})
+		Notes: []string{"successful LoadFromDisk only (error-path leaks are fault-sequence behaviour outside C07's quantifier)"}})
 }
 
 func c07ConcJobs(tier string) []Job { return smrJobs("C07")(tier) }
